@@ -172,6 +172,9 @@ func (r *runner) note(o *Outcome) {
 	if c.Stream.Kind == "const" || c.Stream.Kind == "periodic" {
 		r.res.Faults["device-"+c.Stream.Kind]++
 	}
+	if len(c.Prelude) > 0 {
+		r.res.Probes["run-with-earlier-call"]++
+	}
 	r.res.Probes["policy-"+c.Policy.Kind]++
 	if c.Workers > 0 && Info(c.Workflow).Fast {
 		r.res.Probes[fmt.Sprintf("workers-%d", c.Workers)]++
@@ -309,6 +312,9 @@ func (r *runner) minimise(c RunConfig, picks []int, clause string) (RunConfig, b
 		}
 	}
 	try(func(x *RunConfig) { x.Picks = nil })
+	if len(cur.Prelude) > 0 {
+		try(func(x *RunConfig) { x.Prelude = nil })
+	}
 	try(func(x *RunConfig) { x.Chunk = ChunkSpec{Kind: "full"} })
 	if cur.Chunk.Kind == "full" {
 		// (with short reads every Read would become a scheduling point: far too many steps)
